@@ -546,7 +546,48 @@ func (fa *funcAnalysis) checkCall(c *ast.CallExpr) {
 		}
 		fa.res.Count("call_pairs", 1)
 		fa.checkUnits("call", k, c.Args[j], c.Args[j].Pos())
+		fa.checkVectorWalk(k, sig.Params().At(j), c.Args[j])
 	}
+}
+
+// checkVectorWalk: a 2-D operand (one paired with a leading dimension) is
+// handed to a vector parameter (slice + inc*). The increment of the walk
+// must then be a constant (row walk, usually 1) or be built from the
+// operand's own leading dimension (column/diagonal walk): an increment
+// that is a unit-less variable such as a dimension ("k") walks the matrix
+// as if its rows were packed.
+func (fa *funcAnalysis) checkVectorWalk(owner string, strideParam *types.Var, arg ast.Expr) {
+	if !strings.HasPrefix(strings.ToLower(strideParam.Name()), "inc") {
+		return
+	}
+	// is the owner a matrix (paired with an ld* parameter)?
+	isMatrix := false
+	for o, k := range fa.strideOwner {
+		if k == owner && strings.HasPrefix(strings.ToLower(o.Name()), "ld") {
+			isMatrix = true
+		}
+	}
+	if !isMatrix {
+		return
+	}
+	fa.res.Obligations++
+	fa.res.Count("matrix_vector_walks", 1)
+	if tv, ok := fa.info.Types[arg]; ok && tv.Value != nil {
+		return
+	}
+	u := map[string]bool{}
+	fa.exprUnits(arg, u)
+	if u[owner] {
+		return
+	}
+	fa.res.Add(core.Finding{
+		Rule: "STRIDE.walk",
+		Key:  fmt.Sprintf("STRIDE.walk|%s|%s<-%s", fa.name, fa.ownerLabel(owner), types.ExprString(arg)),
+		Pos:  core.Pos(arg.Pos()),
+		Func: fa.name,
+		Msg: fmt.Sprintf("matrix operand %q is walked as a vector with increment %q, which is neither a constant nor derived from its leading dimension",
+			fa.ownerLabel(owner), types.ExprString(arg)),
+	})
 }
 
 func (fa *funcAnalysis) checkLit(l *ast.CompositeLit) {
@@ -589,6 +630,7 @@ func Run(cfg core.Config, scope core.Scope) *core.Result {
 	res.Rules = append(res.Rules,
 		"STRIDE.index: every index/slice bound of an operand carries only that operand's own ld/inc/Stride unit",
 		"STRIDE.len: a comparison of len(p) with a required extent uses only p's own ld/inc/Stride",
+		"STRIDE.walk: a matrix operand passed as a vector is walked with a constant increment or one derived from its own leading dimension",
 		"STRIDE.pair: at every call or struct literal a (slice, stride) pair refers to one operand")
 	res.Configs = append(res.Configs, cfg.String())
 	pkgs, err := core.Load(cfg, patterns...)
